@@ -187,6 +187,7 @@ class Sequence:
                 self.invalidate_rel()
                 yield message
         finally:
+            self._abs.sort()
             self.invalidate_rel()
 
     def messages_rel(self) -> Generator[Message]:
